@@ -301,7 +301,8 @@ func bitIndex(v uint32) int {
 // CanonKey identifies the rule a spec denotes, independent of how it is
 // written: modifier order, the order of content types and document-level
 // options, the letter case of record type names, the order and spelling of
-// tags and clients (the library sorts those) do not matter; the order of
+// tags and clients (the library sorts those) and content types included next
+// to a document-level option (which replaces them) do not matter; the order of
 // $domain and $denyallow values does (the library compares them as lists).
 func (s *Spec) CanonKey() string {
 	c := s.Clone()
@@ -311,6 +312,11 @@ func (s *Spec) CanonKey() string {
 	c.DocOpts = dedupSorted(c.DocOpts)
 	c.TypesP = dedupSorted(c.TypesP)
 	c.TypesR = dedupSorted(c.TypesR)
+	if len(c.DocOpts) > 0 || c.Popup {
+		// Document-level options and $popup replace the set of included
+		// content types by {document}: "$urlblock,ping" IS "$urlblock".
+		c.TypesP = nil
+	}
 	for i := range c.DNSTypes {
 		c.DNSTypes[i].Name = strings.ToUpper(c.DNSTypes[i].Name)
 	}
